@@ -611,9 +611,7 @@ func checkC16Env(e *ref.Env, r *harness.Rec) {
 	if bad != "" {
 		viol(r, "node without mode", bad, text, nil)
 	}
-	if e.WellFormed() != "" {
-		return // C10's subject; the reference inference is only defined on well-formed environments
-	}
+	wfEnv := e.WellFormed() == ""
 	unann := false
 	for _, d := range e.Defs {
 		if d.Body.Ann == ref.MUnset {
@@ -624,8 +622,13 @@ func checkC16Env(e *ref.Env, r *harness.Rec) {
 		r.Add("distinct_nontrivial", 1)
 		r.Sample(strings.ReplaceAll(strings.TrimSpace(e.String()), "\n", " ; "))
 	}
-	// e has been elaborated by WellFormed
+	// e has been elaborated by WellFormed; the comparison with the reference inference only makes sense
+	// for well-formed environments (an accepted ill-formed one is C10's subject), the invariance checks
+	// below apply to everything the typechecker accepts
 	for _, d := range e.Defs {
+		if !wfEnv {
+			break
+		}
 		if modes[d.Name] != d.Mode {
 			viol(r, "definition mode differs from reference inference", fmt.Sprintf("definition %s has mode %s, reference inference gives %s", d.Name, modes[d.Name], d.Mode), text, nil)
 		}
@@ -685,7 +688,11 @@ func checkC16Env(e *ref.Env, r *harness.Rec) {
 	// explicit annotation of the inferred head mode
 	ae := &ref.Env{}
 	for _, d := range e.Defs {
-		b := ref.AnnTy{Ann: d.Mode, T: d.Body.T.Copy()}
+		hm := modes[d.Name] // the mode the typechecker itself inferred for the definition
+		if hm == ref.MUnset || hm == ref.MInvalid {
+			return
+		}
+		b := ref.AnnTy{Ann: hm, T: d.Body.T.Copy()}
 		ae.Defs = append(ae.Defs, ref.TypeDef{Name: d.Name, Body: b})
 	}
 	atext := envProgram(ae)
